@@ -9,6 +9,7 @@ mod c15;
 mod c16;
 mod c17;
 mod c18;
+mod c19;
 mod channel;
 mod compressed;
 mod deploy;
@@ -42,6 +43,7 @@ fn prop_fn(id: &str) -> Option<(&'static str, PropFn)> {
         "C16" => ("C16", c16::run as PropFn),
         "C17" => ("C17", c17::run as PropFn),
         "C18" => ("C18", c18::run as PropFn),
+        "C19" => ("C19", c19::run as PropFn),
         _ => return None,
     })
 }
@@ -204,6 +206,14 @@ fn cmd_replay(a: &Args) {
     let expect = a.kv.get("expect").cloned();
     let mut st = Stats::default();
     let o = execute(prop, f, seed, run, thorough, &spec, &mut st);
+    for (k, (n, d, _)) in &st.findings {
+        println!("REPLAY finding key={} count={} detail={}", k, n, d);
+    }
+    if let Some(e) = &expect {
+        if let Some(key) = e.strip_prefix("finding:") {
+            std::process::exit(if st.findings.contains_key(key) { 1 } else { 0 });
+        }
+    }
     match o.violation {
         Some(v) => {
             println!("REPLAY violation invariant={} detail={}", v.invariant, v.detail);
